@@ -9,7 +9,7 @@ pub struct Dbg {
 }
 impl Dbg {
     pub fn new() -> Self {
-        Dbg { tm: env::load_type_map_with(env::adversarial_classes()) }
+        Dbg { tm: env::load_full_type_map() }
     }
 }
 impl Stream for Dbg {
